@@ -234,6 +234,15 @@ class SrcInfo:
                 col = m.start(1) + dm.start() - line_start + 1
                 self.impls[(path, line_no, col)] = (dm.group(0).split("::")[-1], tyname, mod, tyname)
 
+    def impl_self_type(self, impl_seg):
+        """Type name of an `<impl at src/file.rs:LINE:COL: ...>` path segment, from the source scan."""
+        m = re.match(r"<impl at ([^:]+):(\d+):(\d+)", impl_seg or "")
+        if not m:
+            return None
+        path, line, col = m.group(1), int(m.group(2)), int(m.group(3))
+        hit = self.impls.get((path, line)) or self.impls.get((path, line, col))
+        return hit[1] if hit else None
+
     def enum_variants(self, tyname_segs):
         return _suffix_lookup(self.enums, tyname_segs)
 
